@@ -911,15 +911,19 @@ async fn gen_trace(id: u64, rng: &mut Rng, tier: &str) -> String {
     // focus mode ("prefill pressure"): one request class, many equal tasks, rising priorities, slow
     // message delivery, several workers - reaches the retract / redirect / prefill interleavings
     let focus = rng.chance(2, 5);
-    let reserve = if focus { *rng.pick(&[0u32, 1, 1]) } else { *rng.pick(&[0u32, 1, 2, 2, 16]) };
-    let maxp = if focus { *rng.pick(&[1u32, 2, 3]) } else { *rng.pick(&[1u32, 2, 3, 3, 40]) };
+    // second focus mode ("multi-node pressure", added after finding F28): few small workers, many equal
+    // single-node tasks (prefill), multi-node tasks of rising priority arriving in between, frequent
+    // cancels, slow delivery - reaches "multi-node placement while retracts / cancels are in flight"
+    let mnfocus = !focus && rng.chance(1, 4);
+    let reserve = if focus { *rng.pick(&[0u32, 1, 1]) } else if mnfocus { 0 } else { *rng.pick(&[0u32, 1, 2, 2, 16]) };
+    let maxp = if focus || mnfocus { *rng.pick(&[1u32, 2, 3]) } else { *rng.pick(&[1u32, 2, 3, 3, 40]) };
     let cfg = GenCfg {
         steps: if tier == "thorough" { rng.range(40, 260) } else { rng.range(30, 140) },
-        max_workers: if focus { rng.range(2, 4) as u32 } else { rng.range(1, 4) as u32 },
-        mn: !focus && rng.chance(1, 3),
+        max_workers: if focus { rng.range(2, 4) as u32 } else if mnfocus { rng.range(1, 3) as u32 } else { rng.range(1, 4) as u32 },
+        mn: mnfocus || (!focus && rng.chance(1, 3)),
         faults: rng.chance(3, 4),
     };
-    let deliver_w: u64 = if focus { *rng.pick(&[6u64, 10, 16]) } else { 30 };
+    let deliver_w: u64 = if focus { *rng.pick(&[6u64, 10, 16]) } else if mnfocus { *rng.pick(&[4u64, 8, 12]) } else { 30 };
     let mut last_prio = 0i32;
     let mut h = H::new(reserve, maxp);
     writeln!(h.out, "TRACE {id} cluster").unwrap();
@@ -931,6 +935,31 @@ async fn gen_trace(id: u64, rng: &mut Rng, tier: &str) -> String {
     let mut script: Vec<Op> = vec![];
     if rng.chance(3, 4) {
         script.push(Op::Connect { units: [*rng.pick(&[1u32, 2, 4, 4, 8]), rng.below(3) as u32 / 2, 0], group: 0 });
+    }
+    if mnfocus && rng.chance(1, 2) {
+        // the shape of finding F28 with random variations, then the random walk takes over: a worker
+        // filled with equal tasks (the surplus is prefilled), the assigned ones are cancelled, a
+        // multi-node task of higher priority arrives (the prefilled tasks are retracted), a scheduler round
+        let u = *rng.pick(&[1u32, 1, 2]);
+        let sn1 = RqSpec { nodes: 0, units: [1, 0, 0] };
+        let mut sc = vec![
+            Op::Connect { units: [u, 0, 0], group: 0 },
+            Op::Submit { job: None, ids: None, entries: if u > 1 { Some(u) } else { None }, rq: sn1.clone(), prio: 0, crash: Crash::Unlimited, tlim: false, maxfails: None },
+            Op::Submit { job: None, ids: None, entries: if rng.chance(1, 2) { Some(2) } else { None }, rq: sn1, prio: 0, crash: Crash::Unlimited, tlim: false, maxfails: None },
+            Op::Sched,
+        ];
+        if rng.chance(1, 2) {
+            sc.push(Op::DDown { w: 1 });
+            sc.push(Op::DDown { w: 1 });
+            if rng.chance(1, 2) {
+                sc.push(Op::DUp { w: 1 });
+            }
+        }
+        sc.push(Op::Cancel { job: 1 });
+        sc.push(Op::Submit { job: None, ids: None, entries: None, rq: RqSpec { nodes: 1, units: [0; 3] }, prio: 5, crash: Crash::Unlimited, tlim: false, maxfails: None });
+        sc.push(Op::Sched);
+        sc.reverse();
+        script = sc;
     }
     let mut step = 0;
     while step < cfg.steps && !h.dead {
@@ -962,7 +991,7 @@ async fn gen_trace(id: u64, rng: &mut Rng, tier: &str) -> String {
                 cands.push((25, Op::Sched));
             }
             if (wids.len() as u32) < cfg.max_workers && n_workers_ever < 6 {
-                let units0 = if focus { *rng.pick(&[1u32, 1, 2, 2, 4]) } else { *rng.pick(&[1u32, 2, 2, 4, 4, 8]) };
+                let units0 = if focus { *rng.pick(&[1u32, 1, 2, 2, 4]) } else if mnfocus { *rng.pick(&[1u32, 1, 2]) } else { *rng.pick(&[1u32, 2, 2, 4, 4, 8]) };
                 cands.push((if wids.is_empty() { 20 } else if focus { 6 } else { 3 }, Op::Connect { units: [units0, (rng.below(4) == 0) as u32, 0], group: rng.below(2) as u32 }));
             }
             // client requests
@@ -985,6 +1014,12 @@ async fn gen_trace(id: u64, rng: &mut Rng, tier: &str) -> String {
                         let rq = if rng.chance(4, 5) { RqSpec { nodes: 0, units: [1, 0, 0] } } else { RqSpec { nodes: 0, units: [2, 0, 0] } };
                         let prio = if rng.chance(1, 2) { last_prio + rng.range(0, 2) as i32 } else { *rng.pick(&[0, 0, 1, 2]) };
                         (rq, prio)
+                    } else if mnfocus {
+                        if rng.chance(2, 5) {
+                            (RqSpec { nodes: *rng.pick(&[1u32, 1, 2]), units: [0; 3] }, last_prio + rng.range(1, 3) as i32)
+                        } else {
+                            (RqSpec { nodes: 0, units: [1, 0, 0] }, *rng.pick(&[0, 0, 0, 1]))
+                        }
                     } else {
                         (random_rq(rng, cfg.mn), *rng.pick(&[0, 0, 0, 1, 2, -1, 5]))
                     };
@@ -1029,8 +1064,8 @@ async fn gen_trace(id: u64, rng: &mut Rng, tier: &str) -> String {
                 if *open {
                     cands.push((2, Op::Close { job: *j }));
                 }
-                if cfg.faults {
-                    cands.push((1, Op::Cancel { job: *j }));
+                if cfg.faults || mnfocus {
+                    cands.push((if mnfocus { 4 } else { 1 }, Op::Cancel { job: *j }));
                 }
                 cands.push((1, Op::Forget { job: *j }));
             }
